@@ -1320,7 +1320,10 @@ impl ErasedNode for Node {
                         continue;
                     };
                     let child_index = pci.my_child_index_in_parent_at_index[parent_index];
-                    parent.child_changed(self, child_index, self_old)?;
+                    // if we missed changes, so did any map_ref above us: give it no old value
+                    // to compare with, which makes it report a change too
+                    let old_for_parent = if missed_earlier_changes { None } else { self_old };
+                    parent.child_changed(self, child_index, old_for_parent)?;
                 }
             }
             _ => {}
